@@ -37,6 +37,7 @@ type envState struct {
 	sentinels  map[string]value
 	fs         *fsModel
 	tmpSeq     int
+	lastSched  *scheduler
 	inSpawn    bool
 	sleepBudget int
 }
